@@ -578,6 +578,18 @@ class Effects:
                     cls = self.classify(fn, Place(t["dest"]))
                     if len(cls) == 1 and cls[0][0] == "loc" and cls[0][3]:
                         gen[bb] |= self.nested((cls[0][1], cls[0][2]))
+        # complete-traversal loops: credited on the edge that leaves the loop normally (traversal.py)
+        import traversal
+        edge_gen = {}
+        for (u, v), keys in traversal.LoopMW(self, fn).run().items():
+            a, ap = set(), set()
+            for k in keys:
+                if k[0] == "loc":
+                    a |= self.nested((k[1], k[2]))
+                elif k[0] == "param":
+                    ap.add(k[1])
+            if a or ap:
+                edge_gen[(u, v)] = (frozenset(a), frozenset(ap))
         # forward must analysis: IN[b] = ∩ OUT[p]
         TOP = None
         inn = [TOP] * n
@@ -591,7 +603,8 @@ class Effects:
             changed = False
             for b in order:
                 if b != 0:
-                    ps = [out[p] for p in fn.preds(b) if p in reach and out[p] is not TOP]
+                    ps = [out[p] if (p, b) not in edge_gen else (out[p][0] | edge_gen[(p, b)][0], out[p][1] | edge_gen[(p, b)][1])
+                          for p in fn.preds(b) if p in reach and out[p] is not TOP]
                     if not ps:
                         continue
                     a = frozenset.intersection(*[p[0] for p in ps])
